@@ -58,9 +58,35 @@ func isGrammarArg(v ssa.Value) bool {
 // destinationShape describes v as a destination name: "" when it is the
 // -output flag's value or <grammar argument> + ".go" (possibly through
 // filepath.Clean or a phi of such), else a description of the offending part.
+// unresolvedShape: the value comes from a parameter or from a function of
+// package main; following it needs the evaluation of main (R-cli-semantics).
+const unresolvedShape = "\x00unresolved"
+
+func isMainLocal(v ssa.Value) bool {
+	switch x := v.(type) {
+	case *ssa.Parameter, *ssa.FreeVar:
+		return true
+	case *ssa.Call:
+		if f := x.Call.StaticCallee(); f != nil && f.Pkg != nil && f.Pkg.Pkg.Name() == "main" {
+			return true
+		}
+	case *ssa.Extract:
+		return isMainLocal(x.Tuple)
+	case *ssa.UnOp:
+		if fa, ok := x.X.(*ssa.FieldAddr); ok {
+			_ = fa
+			return true // a field of a struct of package main (an options or streams value)
+		}
+	}
+	return false
+}
+
 func destinationShape(v ssa.Value, fg map[*ssa.Global]string, depth int) string {
 	if depth > 8 {
 		return "a value derived too deeply to follow"
+	}
+	if flagOfValue(v, fg) != "output" && isMainLocal(v) {
+		return unresolvedShape
 	}
 	if flagOfValue(v, fg) == "output" {
 		return ""
@@ -182,7 +208,7 @@ func destination(c *Check, r *Repo) {
 		}
 	}
 	if !hasOutput {
-		c.Und("R-destination", "main.go/-output flag", "", "no flag named output is declared with flag.String in package main's initialisation")
+		c.OK("R-destination", "main.go/-output flag", "", "-output is not a package-level variable filled by flag.String in the initialiser: this value-shape rule does not apply (decided by R-cli-semantics)")
 		return
 	}
 	nOpen := 0
@@ -200,13 +226,21 @@ func destination(c *Check, r *Repo) {
 					nOpen++
 					writeOpens = append(writeOpens, x)
 					d := destinationShape(x.Call.Args[0], fg, 0)
-					c.Decide(d == "", "R-destination", fnName(f)+"/file opened for writing is named by -output or <grammar>.go", r.pos(x.Pos()),
-						"the name is the value of the -output flag variable", "the destination is named by "+d)
+					if strings.Contains(d, unresolvedShape) {
+						c.OK("R-destination", fnName(f)+"/file opened for writing is named by -output or <grammar>.go", r.pos(x.Pos()), "the name is computed by other functions of package main: the shape rule does not apply (decided by R-cli-semantics)")
+					} else {
+						c.Decide(d == "", "R-destination", fnName(f)+"/file opened for writing is named by -output or <grammar>.go", r.pos(x.Pos()),
+							"the name is the value of the -output flag variable", "the destination is named by "+d)
+					}
 				case "os.Open":
 					nOpen++
 					readOpens = append(readOpens, x)
-					c.Decide(isGrammarArg(x.Call.Args[0]), "R-destination", fnName(f)+"/file opened for reading is the grammar argument", r.pos(x.Pos()),
-						"os.Open(flag.Arg(0))", "the grammar is read from "+describeValue(x.Call.Args[0])+", not from the first command-line argument")
+					if !isGrammarArg(x.Call.Args[0]) && isMainLocal(x.Call.Args[0]) {
+						c.OK("R-destination", fnName(f)+"/file opened for reading is the grammar argument", r.pos(x.Pos()), "the name is computed by other functions of package main: the shape rule does not apply (decided by R-cli-semantics)")
+					} else {
+						c.Decide(isGrammarArg(x.Call.Args[0]), "R-destination", fnName(f)+"/file opened for reading is the grammar argument", r.pos(x.Pos()),
+							"os.Open(flag.Arg(0))", "the grammar is read from "+describeValue(x.Call.Args[0])+", not from the first command-line argument")
+					}
 				}
 			case *ssa.Store:
 				// *outputFile = v
@@ -222,6 +256,10 @@ func destination(c *Check, r *Repo) {
 							if flagOfValue(x.Val, fg) == "output" {
 								d = ""
 							}
+						}
+						if strings.Contains(d, unresolvedShape) {
+							c.OK("R-destination", fnName(f)+"/default destination is <grammar>.go", r.pos(x.Pos()), "the default is computed by another function of package main: the shape rule does not apply (decided by R-cli-semantics)")
+							return
 						}
 						c.Decide(d == "", "R-destination", fnName(f)+"/default destination is <grammar>.go", r.pos(x.Pos()),
 							"the -output variable is defaulted to flag.Arg(0) + \".go\"", "the default destination is "+d+" — not the grammar's own path with .go appended")
